@@ -61,9 +61,17 @@ let handle_variant (v : variant) (x : Sexp.t) : string =
      | None -> ());
     List.iter (fun (e, k, s) ->
         if s = None then set_fail "get-signal-at-panics" (Printf.sprintf "%s at step %d" (Sexp.to_string (sexp_of_expr e)) k)) signals;
-    let n_exec = ref 0 and n_skipped = ref 0 in
+    let n_exec = ref 0 and n_skipped = ref 0 and n_text = ref 0 in
+    (* values z3 computed from the REAL SMT-LIB text for the first run (declared constants pinned to the run) *)
+    let textvals = match Sexp.field_opt "textvals" fs with
+      | Some [Sexp.Atom "unsat"] -> `Unsat
+      | Some l when List.for_all (function Sexp.List [Sexp.Atom "v"; _; _] -> true | _ -> false) l && l <> [] ->
+          `Vals (List.map (function Sexp.List [_; n; v] -> (name n, num v) | _ -> assert false) l)
+      | _ -> `None in
+    let exec_no = ref 0 in
     if !fail = None then begin
       List.iter (fun ex ->
+          let this_exec = !exec_no in incr exec_no;
           let raws = steps_of_exec ex in
           match raws with
           | [] -> ()
@@ -90,7 +98,23 @@ let handle_variant (v : variant) (x : Sexp.t) : string =
                             else if List.exists (expr_eqb e) sy.s_inputs then "input"
                             else if List.exists (expr_eqb e) sy.s_constraints then "constraint" else "bad-state" in
                           set_fail ("unfaithful:" ^ kind) (Printf.sprintf "%s at step %d: script value differs from the execution" (Sexp.to_string (sexp_of_expr e)) k)
-                    | None -> ()) signals
+                    | None -> ()) signals;
+                (* the same comparison on the text level *)
+                if this_exec = 0 then begin
+                  match textvals with
+                  | `Unsat -> set_fail "text:pinned-run-unsatisfiable" "z3: the script with the declared constants pinned to a run of the system is unsat"
+                  | `Vals vs ->
+                      List.iter (fun (n, v) ->
+                          match List.assoc_opt n tab with
+                          | Some (e, k) ->
+                              incr n_text;
+                              if ebv (at k) e <> v then
+                                set_fail "unfaithful-text" (Printf.sprintf "%s = %s at step %d: z3 evaluates the SMT-LIB text to another value than the execution (the abstract commands are %s)"
+                                   (ocamlstr n) (Sexp.to_string (sexp_of_expr e)) k
+                                   (if !fail = None then "faithful" else "unfaithful too"))
+                          | None -> ()) vs
+                  | `None -> ()
+                end
               end) (Sexp.field "execs" fs)
     end;
     (* the solvers: a third, independent check *)
@@ -126,7 +150,7 @@ let handle_variant (v : variant) (x : Sexp.t) : string =
             else if known_class_b en (n_of_int entry) then "known-class(but-accepted)"
             else "in-theorem-domain" in
           Registry.result ~id ~status:"ok" ~key:(Printf.sprintf "entry%s:%s" (if entry = 0 then "0" else ">0") domain)
-            ~detail:(Printf.sprintf "execs=%d skipped=%d exact-order=%b %s" !n_exec !n_skipped exact_order solver_note) ()
+            ~detail:(Printf.sprintf "execs=%d skipped=%d text-values=%d exact-order=%b %s" !n_exec !n_skipped !n_text exact_order solver_note) ()
   end
 
 let () = Registry.register "C04" (handle_variant Current)
